@@ -3,6 +3,7 @@
 From Coq Require Import String ZArith Bool List.
 From PS Require Import Model.Data Model.Actions Model.Fsm Model.History Model.FsmCorr Model.TableChecks
   Model.C01Corr Model.C05Corr Gen.ConstsSwap Gen.ConstsC24 Gen.Tables Proofs.Engine Proofs.C05.
+From PS Require Model.C05LndWatch Gen.ConstsLndWatch Proofs.C05LndWatch.
 Import ListNotations.
 Open Scope Z_scope.
 
@@ -75,3 +76,19 @@ Theorem c05_region_exact : forall S, 0 <= S -> S + 504 < 2 ^ 32 ->
   exists C P f, c05_enforced_at S P f = true /\ C = S + 4 /\ C + 2 <= P /\ c05_full_at C P f = false.
 Proof. exact unsafe_region. Qed.
 Print Assumptions c05_region_exact.
+
+(* lnd back-end: the lnd watcher is the one place that counts from the opening transaction's CONFIRMATION height h.
+   When it hands the transaction to the swap (verdict 0, the taker goes on to pay) at node height t >= h, the
+   transaction has fewer than BitcoinCsvSafetyLimit = 504 (= half of the Bitcoin CSV, regenerated from the code)
+   confirmations.  Model of lnd.TxWatcher.AddWaitForConfirmationTx with the uint32 arithmetic explicit
+   (Model/C05LndWatch.v), tied to the real watcher by the lndwatch family. *)
+Theorem c05_lnd_watcher_confirms_below_half_csv : forall h t,
+  0 < h < 2147483648 -> 0 <= t < 2147483648 -> h <= t ->
+  PS.Model.C05LndWatch.lnd_conf_verdict PS.Gen.ConstsLndWatch.gen_lndwatch_safety_limit h t false = 0%N ->
+  t - h + 1 < 504 /\ 504 = PS.Gen.ConstsLndWatch.gen_lndwatch_bitcoin_csv / 2.
+Proof.
+  intros h t Hh Ht Hle H. split.
+  - exact (PS.Proofs.C05LndWatch.lnd_confirmed_generated h t Hh Ht Hle H).
+  - reflexivity.
+Qed.
+Print Assumptions c05_lnd_watcher_confirms_below_half_csv.
